@@ -16,8 +16,9 @@
      non-empty lists, positive steps); outside it the frameworks' own conventions differ
      (tf_negative_index_refuted, tf_empty_index_list_refuted, torch_negative_step_refuted,
      unchecked_index_on_empty_body_refuted).
-   * matmul: square matrices only for Torch / TF as the source is (matmul_nonsquare_refuted, DESIGN F16); every
-     non-empty width once MaskedTensor.matmul rebuilds its mask (matmul_agree_after_F16a); the float32 dot
+   * matmul: every non-empty width now that MaskedTensor.matmul rebuilds its mask (matmul_agree_after_F16a, /repo
+     ea2a495); square matrices only with the mask kept as before that repair (matmul_agree_partial,
+     matmul_nonsquare_refuted, DESIGN F16); a matrix without columns raises on NumPy only; the float32 dot
      product is a parameter [dot] - rounding and summation order of the three kernels are not modelled.
    * flatten: column 0 (frame / fps in the backend's float type) is kept as (frame, fps); its rounding is not modelled. *)
 From Coq Require Import ZArith NArith List Bool String.
